@@ -5,5 +5,6 @@ CONSTANTS
   MaxCrashes = 4
   Protocol = "atomic"
   SignalDeath = "failure"
+  MkdirMode = "idempotent"
 POSTCONDITION TraceDone
 CHECK_DEADLOCK FALSE
